@@ -1,12 +1,75 @@
 import GridVerif.Model.Proto
 import GridVerif.Model.Elem
+import GridVerif.Model.Periodic
+import GridVerif.Driver.C10
 
+/-
+  Driver of C11.  One line = one PeriodicGrid with its whole history:
+
+    C11.hist <oned 0|1> <dim> <points: mat> <weights: vec> <realvecs: mat k×dim>
+             <recivecs parameter: mat k×dim> <wrap 0|1> <nops> <op>*
+
+  with the ops of C10 (`q`, `sp`, `sw`, `gi`).  Answer: the error tag of the constructor or
+
+    ok C <points: mat> <recivecs: mat> <spacings: vec> <frac_intvls: mat k×2> | <out> | …
+    out := L <ilc: mat n×k> <indices: vec> <points: mat> <weights: vec>
+         | G <points: mat> <weights: vec> <frac_intvls: mat>
+         | D <frac_intvls: mat>          (after `sp`)    | D   (after `sw`)
+         | E <error>
+-/
 namespace GridVerif.Driver.C11
-open GridVerif.Proto
+open GridVerif.Proto GridVerif.LocalGrid GridVerif.Periodic
+open GridVerif.Driver.C10 (P pTok pBool pOps sErr)
 
-/-- Line-protocol handler of property C11: `C11.<op> args…` ↦ one answer line
-(`none` = malformed, answered `bad-op`). -/
+def sIntv (iv : List (Float × Float)) : String :=
+  sMat sFloat (iv.map fun p => [p.1, p.2])
+
+def toPOp : Op Float → POp Float
+  | .query c r => .query c r
+  | .setPoints o d v => .setPoints o d v
+  | .setWeights w => .setWeights w
+  | .getItem i => .getItem i
+
+/-- Runs the history, printing each outcome (the `L` answers also carry the integer
+combination of every entry, recomputed with `entries`). -/
+def runShow (g : PGrid Float) : List (Op Float) → List String
+  | [] => []
+  | op :: ops =>
+    let (g', o) := step g (toPOp op)
+    let s : String := match o, op with
+      | .out (.localGrid idx lp lw), .query c (.fin r) =>
+        let tree := match g.tree with
+          | some t => t
+          | none => g.points
+        let es := match centreOf g c with
+          | some c => entries g tree c r
+          | none => []
+        s!"L {sMat toString (es.map (·.1))} {sNats idx} {sMat sFloat lp} {sFloats lw}"
+      | .out (.localGrid idx lp lw), _ => s!"L 0 0 {sNats idx} {sMat sFloat lp} {sFloats lw}"
+      | .out .done, .setPoints .. => s!"D {sIntv g'.fracIntvls}"
+      | .out .done, _ => "D"
+      | .out (.error e), _ => s!"E {sErr e}"
+      | .out (.grid ..), _ => "E unexpected"
+      | .grid sub, _ => s!"G {sMat sFloat sub.points} {sFloats sub.weights} {sIntv sub.fracIntvls}"
+    s :: runShow g' ops
+
 def handle : List String → Option String
+  | "C11.hist" :: ts => do
+    let (oned, ts) ← pBool ts
+    let (dim, ts) ← pTok pNat ts
+    let (pts, ts) ← pMat pFloat ts
+    let (w, ts) ← pVec pFloat ts
+    let (rv, ts) ← pMat pFloat ts
+    let (reci, ts) ← pMat pFloat ts
+    let (wrap, ts) ← pBool ts
+    let (nops, ts) ← pTok pNat ts
+    let (ops, ts) ← pOps nops ts
+    if ts ≠ [] then none else
+    match construct oned dim pts w rv reci wrap with
+    | .error e => pure (sErr e)
+    | .ok g =>
+      let head := s!"C {sMat sFloat g.points} {sMat sFloat g.recivecs} {sFloats g.spacings} {sIntv g.fracIntvls}"
+      pure ("ok " ++ String.intercalate " | " (head :: runShow g ops))
   | _ => none
 
 end GridVerif.Driver.C11
